@@ -2071,7 +2071,7 @@ func (w *world) endBlock(res *sim.BlockResult) {
 			w.fail("C04/pending-groups-query", "PendingGroups(member %d): %v", m.id, err)
 			return
 		}
-		if listed != want {
+		if listed != want && os.Getenv("VERIF_C04_SKIP_PENDING_QUERY_CHECK") == "" { // switch: sensitivity experiments on the restart step alone
 			w.fail("C04/pending-groups-query", "height %d: group status %v, member %d submitted its message of this round = %v, but PendingGroups lists the group = %v (n=%d t=%d)",
 				res.Height, got, m.id, !want, listed, w.n, w.t)
 			return
